@@ -801,6 +801,9 @@ def mutation(ctx, st, name):
             raise Untranslatable(f"setdefault on non-dict {name}")
         kt, vt = alist_types(ty)
         return f"let {n} := alistAppendTo {expr(ctx, sd[1], kt)} {expr(ctx, sd[2], elem_type(vt))} {n}"
+    if isinstance(st, ast.Assign) and ty.startswith("List "):
+        tgt = st.targets[0]
+        return f"let {n} := List.set {n} {expr(ctx, tgt.slice, 'Nat')} {expr(ctx, st.value, elem_type(ty))}"
     if isinstance(st, ast.Assign):
         tgt = st.targets[0]
         if not ty.startswith("AList"):
